@@ -89,6 +89,7 @@ type HarnessReport struct {
 	WallS        float64                  `json:"wall_s"`
 	Bounds       map[string]int64         `json:"bounds"`
 	Errors       []string                 `json:"engine_errors,omitempty"`
+	Retried      []string                 `json:"retried_paths,omitempty"`
 	replays      []*ReplayCase
 }
 
@@ -371,6 +372,15 @@ func runHarness(w *World, execs []*Exec, h *ssa.Function, cfg *HarnessCfg) *Harn
 					return
 				}
 				outcome, msg := e.runPath(h, prefix)
+				if outcome == "error" {
+					// one retry: a solver process hiccup under load must not make the run inconclusive;
+					// a deterministic engine error fails again and is reported
+					first := msg
+					outcome, msg = e.runPath(h, prefix)
+					errMu.Lock()
+					res.Retried = append(res.Retried, firstLine(first))
+					errMu.Unlock()
+				}
 				res.mu.Lock()
 				res.Steps += e.steps
 				switch outcome {
@@ -413,7 +423,7 @@ func runHarness(w *World, execs []*Exec, h *ssa.Function, cfg *HarnessCfg) *Harn
 	rep := &HarnessReport{Name: h.Name(), Paths: res.Paths, Infeasible: res.Infeasible, Outside: res.Outside, Limit: res.Limit,
 		Incomplete: rem > 0, Unexplored: rem, Asserts: res.Asserts, Covers: map[string]bool{}, Violations: res.Violations, KnownHit: res.KnownHit,
 		Natives: res.Natives, Intrinsics: res.Intrinsics, Samples: res.Samples, Steps: res.Steps, Panics: panics,
-		GlobalWrites: res.GlobalWrites, Resources: resources, WallS: time.Since(t0).Seconds(), Errors: engineErrs,
+		GlobalWrites: res.GlobalWrites, Resources: resources, WallS: time.Since(t0).Seconds(), Errors: engineErrs, Retried: res.Retried,
 		Bounds: map[string]int64{"max_paths": int64(maxPaths), "max_decisions_per_path": int64(maxDec), "max_steps_per_path": maxSteps, "max_seconds": int64(maxSec), "max_call_depth": 400}}
 	// keep only gogen functions in functions_encoded
 	rep.Funcs = map[string]int{}
